@@ -13,7 +13,7 @@ META = dict(
                 'with handler in {ignore, error.map(-> -1), error router, none} and tail in {identity, count, to_list, scan} run under multiplex (stateless tails), under with_memory_store and inside group_by with 2 interleaved keys. '
                 'Oracle from the statement at list level: with ignore/router the main output equals the output of the same real pipeline on the items with the failing ones removed (other keys and later items unaffected); '
                 'with error.map the failing item is replaced in place by the mapped value; the router delivers the exceptions in source order to the dead-letter observable, which completes exactly when the stream completes; '
-                'with no handler the final subscriber receives the outputs produced before the first failing item, then on_error with that exception, and nothing after.',
+                'with no handler the final subscriber receives the outputs produced before the first failing item, then on_error with that exception, and nothing after - also when the failing operator sits before a group_by, and when the only handler sits after the group_by (the error is unhandled where the group stream is demultiplexed).',
     bounds=dict(quick='N <= 3 items (N <= 4 on the root key), <= 2 groups, |v| <= 2^40', thorough='N <= 5 (root), N <= 4 with 2 groups'),
     outside='errors raised by other operators; handlers not placed directly after the raising operator; N above the bound',
     assumptions=['the same real pipeline on the items without the failing ones is the specification of "as if the item were absent" (differential oracle)'],
@@ -101,7 +101,7 @@ def isolate(p):
     sig = []
     pre = []
     for i in range(n):
-        if ctx == 'group':
+        if ctx in ('group', 'group_outer'):
             sig.append(('k%d' % i, 'bool'))
         sig.append(('v%d' % i, 'int'))
         pre.append('-2**40 <= v%d <= 2**40' % i)
@@ -136,8 +136,17 @@ def isolate(p):
         elif ctx == 'root':
             pipe = rs.state.with_memory_store(inner)
             src_items = vals
-        else:
+        elif ctx == 'group':
             pipe = rs.state.with_memory_store([rs.ops.group_by(lambda i: i[0], [rs.ops.map(lambda i: i[1])] + inner)])
+            src_items = list(zip(keys, vals))
+        elif ctx == 'pre_group':
+            # the failing operator sits before a group_by, no handler anywhere: the error reaches a demultiplexing point unhandled
+            pipe = rs.state.with_memory_store(stage + [rs.ops.group_by(lambda i: 0 if i % 2 == 0 else 1, TAILS[tail]())])
+            src_items = vals
+        else:
+            # group_outer: the handler is placed after the group_by, not directly after the failing operator: the error is unhandled
+            # where the group's stream is demultiplexed and must surface as on_error there
+            pipe = rs.state.with_memory_store([rs.ops.group_by(lambda i: i[0], [rs.ops.map(lambda i: i[1])] + stage + TAILS[tail]())] + h)
             src_items = list(zip(keys, vals))
         quiet(lambda: s.pipe(pipe).subscribe(on_next=lambda v: out.append((cur[0], v)),
                                              on_error=lambda e: (out.append((cur[0], ('ERR', e.args[0] if isinstance(e, Bad) else repr(e)))), events.append('main_error')),
@@ -150,7 +159,7 @@ def isolate(p):
             cur[0] = n
             s.on_completed()
         quiet(push)
-        groups = [0, 1] if ctx == 'group' else [0]
+        groups = [0, 1] if ctx in ('group', 'group_outer') else [0]
         per_key = {g: [v for k, v in zip(keys, vals) if k == g] for g in groups} if ctx == 'group' else {0: vals}
         first_bad = None
         for t, v in enumerate(vals):
@@ -158,6 +167,13 @@ def isolate(p):
                 first_bad = t
                 break
         got_vals = [v for _, v in out]
+        if ctx in ('pre_group', 'group_outer'):
+            if first_bad is None:
+                return True
+            exp = [v for t, v in _unhandled_prefix(ctx, keys, vals, first_bad)] + [('ERR', vals[first_bad])]
+            if got_vals != exp or 'main_error' not in events or 'main_completed' in events:
+                return fail(params=p, items=src_items, observed=got_vals, expected=exp, events=events)
+            return True
         if handler == 'none':
             if first_bad is None:
                 return True     # nothing fails: covered by the other families
@@ -191,6 +207,18 @@ def isolate(p):
         elif events != ['main_completed']:
             return fail(params=p, items=src_items, events=events)
         return True
+
+    def _unhandled_prefix(ctx_, keys, vals, first_bad):
+        """outputs of the same pipeline (without the handler) on the items before the first failing one, completion excluded"""
+        st = _raising(op)[0]
+        if ctx_ == 'pre_group':
+            prefix = vals[:first_bad]
+            ops_ = st + [rs.ops.group_by(lambda i: 0 if i % 2 == 0 else 1, TAILS[tail]())]
+        else:
+            prefix = list(zip(keys, vals))[:first_bad]
+            ops_ = [rs.ops.group_by(lambda i: i[0], [rs.ops.map(lambda i: i[1])] + st + TAILS[tail]())]
+        tr = quiet(D.run_timed, prefix, ops_, True)
+        return [(t, v) for t, v in tr if t < len(prefix)]
 
     def _before(op_, tail_, ctx_, keys, vals, first_bad):
         """outputs of the handler-less pipeline on the prefix before the first failing item, completion excluded"""
@@ -239,5 +267,10 @@ def obligations(tier, seed):
                     continue
                 obs.append(Ob(PROP, 'isolate', dict(op=op, handler=handler, tail=tail, ctx='group', n=3 if q else 4), budget=b, group='group',
                               bound=dict(items=3 if q else 4, groups=2, ctx='group_by')))
+    for op in ('map', 'filter', 'scan'):
+        for tail in ('identity', 'scan'):
+            obs.append(Ob(PROP, 'isolate', dict(op=op, handler='none', tail=tail, ctx='pre_group', n=3 if q else 4), budget=b, group='pre_group', bound=dict(items=3 if q else 4, ctx='failing operator before a group_by, no handler')))
+            for handler in ('ignore', 'router'):
+                obs.append(Ob(PROP, 'isolate', dict(op=op, handler=handler, tail=tail, ctx='group_outer', n=3), budget=b, group='group_outer', bound=dict(items=3, groups=2, ctx='handler after the group_by')))
     obs.append(Ob(PROP, 'isolate', dict(op='map', handler='router', tail='scan', ctx='group', n=3, _twin='reach'), budget=60, expect='refute'))
     return obs
